@@ -1,7 +1,10 @@
 package main
 
 import (
+	"crypto/ecdh"
+	"crypto/ecdsa"
 	"crypto/ed25519"
+	"crypto/rsa"
 	"crypto/x509"
 	"encoding/json"
 	"encoding/pem"
@@ -154,6 +157,10 @@ func genPEM(r *runner) {
 		for _, ep := range []string{"pem-decodecertificates", "pem-decodecertificateschain", "pem-decodeprivatekey", "utils-isvalidpem", "utils-getpem"} {
 			c := mk(ep, "data", hx(d.data))
 			c.Family = fam
+			if ep == "pem-decodeprivatekey" {
+				r.doM(pemPrivLine(d.data), c)
+				continue
+			}
 			r.do(c)
 		}
 		c := mk("pem-encodex509chain", "data", hx(d.data), "nils", "1")
@@ -322,4 +329,41 @@ func genParseKey(r *runner) {
 			}
 		}
 	}
+}
+
+// pemPrivLine describes a PEM document the way the Lean model of DecodePEMPrivateKey sees it: the
+// first block's type and what the three x509 parsers make of its bytes.
+func pemPrivLine(data []byte) string {
+	b, _ := pem.Decode(data)
+	if b == nil {
+		return "pempriv block=none sec1=0 pkcs1=0 p8=none"
+	}
+	block := map[string]string{"EC PRIVATE KEY": "ec", "RSA PRIVATE KEY": "rsa", "PRIVATE KEY": "pkcs8"}[b.Type]
+	if block == "" {
+		block = "other"
+	}
+	bit := func(ok bool) string {
+		if ok {
+			return "1"
+		}
+		return "0"
+	}
+	_, e1 := x509.ParseECPrivateKey(b.Bytes)
+	_, e2 := x509.ParsePKCS1PrivateKey(b.Bytes)
+	p8 := "none"
+	if k, err := x509.ParsePKCS8PrivateKey(b.Bytes); err == nil {
+		switch k.(type) {
+		case *rsa.PrivateKey:
+			p8 = "rsa"
+		case *ecdsa.PrivateKey:
+			p8 = "ecdsa"
+		case ed25519.PrivateKey:
+			p8 = "ed25519"
+		case *ecdh.PrivateKey:
+			p8 = "ecdh"
+		default:
+			p8 = "other"
+		}
+	}
+	return "pempriv block=" + block + " sec1=" + bit(e1 == nil) + " pkcs1=" + bit(e2 == nil) + " p8=" + p8
 }
